@@ -317,9 +317,12 @@ class Box:
         self, point: diagram.Vector2D, source: diagram.Vector2D
     ) -> diagram.Vector2D:
         assert point != source
+        # A point on the border may lie outside by a rounding error
+        # (its position is computed relative to the source element).
+        tol = 1e-6
         if not (
-            self.pos.x <= point.x <= self.pos.x + self.size.x
-            and self.pos.y <= point.y <= self.pos.y + self.size.y
+            self.pos.x - tol <= point.x <= self.pos.x + self.size.x + tol
+            and self.pos.y - tol <= point.y <= self.pos.y + self.size.y + tol
         ):
             if source == self.center:
                 # Coming straight from the center, there is no edge
